@@ -27,6 +27,10 @@ enum Op {
     ScanL,
     ScanL2,
     PeekL,
+    /// `Scanner::try_from(modes of A)`: the construction path beside the builders
+    TryFromA,
+    /// `ScannerBuilder::new().add_patterns(..).build()`: the simple builder (shares the cache)
+    SimpleBuild,
 }
 
 fn modes_a() -> Vec<ScannerMode> {
@@ -108,6 +112,8 @@ fn peek(sc: &Scanner) -> Vec<(usize, usize, usize)> {
 
 fn run_op(op: Op, shared: &Scanner, shared_l: Option<&Scanner>) -> Obs {
     match op {
+        Op::TryFromA => Scanner::try_from(modes_a()).map(|s| scan(&s)).map_err(|_| "err".to_string()),
+        Op::SimpleBuild => ScannerBuilder::new().add_patterns(["a", "b+", "[^ab]"]).build().map(|s| scan(&s)).map_err(|_| "err".to_string()),
         Op::ScanL => Ok(scan_l(shared_l.expect("L is built when a script uses it"), INPUT_L)),
         Op::ScanL2 => Ok(scan_l(shared_l.expect("L is built when a script uses it"), INPUT_L2)),
         Op::PeekL => Ok(peek_l(shared_l.expect("L is built when a script uses it"))),
@@ -132,11 +138,15 @@ fn expected(op: Op) -> Obs {
         Op::ScanShared => Ok(scan(&unc(modes_a()).unwrap())),
         Op::ScanShared2 => Ok(scan2(&unc(modes_a()).unwrap())),
         Op::PeekShared => Ok(peek(&unc(modes_a()).unwrap())),
+        Op::TryFromA => unc(modes_a()).map(|s| scan(&s)).map_err(|_| "err".to_string()),
+        Op::SimpleBuild => unc(vec![ScannerMode::new("INITIAL", vec![Pattern::new("a".into(), 0), Pattern::new("b+".into(), 1), Pattern::new("[^ab]".into(), 2)], vec![])]).map(|s| scan(&s)).map_err(|_| "err".to_string()),
         Op::ScanL => Ok(scan_l(&unc(modes_l()).unwrap(), INPUT_L)),
         Op::ScanL2 => Ok(scan_l(&unc(modes_l()).unwrap(), INPUT_L2)),
         Op::PeekL => Ok(peek_l(&unc(modes_l()).unwrap())),
     }
 }
+
+static TICKET: AtomicUsize = AtomicUsize::new(0);
 
 struct HarnessResult {
     executions: usize,
@@ -200,6 +210,7 @@ fn explore(scripts: &[Vec<Op>], bound: Option<usize>, max_branches: usize, budge
     let r = std::panic::catch_unwind(std::panic::AssertUnwindSafe(|| {
         b.check(move || {
             e2.fetch_add(1, Ordering::Relaxed);
+            TICKET.store(0, Ordering::Relaxed);
             // the shared scanner comes from the cache as well (so that scans race with builds of the same entry)
             // a cache that already holds `prefill` other configurations (bounded caches, eviction)
             for k in 0..prefill {
@@ -218,8 +229,11 @@ fn explore(scripts: &[Vec<Op>], bound: Option<usize>, max_branches: usize, budge
                         let mut obs = vec![];
                         for op in script {
                             let r = run_op(op, &shared, shared_l.as_deref());
-                            let keys = scnr::verif::cache_keys().len();
-                            obs.push((r, keys));
+                            // completion order of the operations (a real atomic, invisible to loom:
+                            // it adds no scheduling point): the observed orders show that the
+                            // threads really interleave
+                            let ticket = TICKET.fetch_add(1, Ordering::Relaxed);
+                            obs.push((r, ticket));
                         }
                         obs
                     })
@@ -329,6 +343,16 @@ fn main() {
         bodies.push(vec![vec![*a, Op::ScanL2], vec![Op::ScanL, *a]]);
         bodies.push(vec![vec![*a], vec![Op::ScanShared]]);
     }
+    // the other construction paths (Scanner::try_from, the simple builder) against the builders,
+    // against each other and against scans
+    for a in [Op::TryFromA, Op::SimpleBuild] {
+        for b in [Op::BuildA, Op::BuildAPrime, Op::BuildBad, Op::ScanShared, Op::TryFromA, Op::SimpleBuild] {
+            bodies.push(vec![vec![a], vec![b]]);
+        }
+        bodies.push(vec![vec![a], vec![Op::BuildAPrime], vec![Op::BuildBad]]);
+        bodies.push(vec![vec![a], vec![a], vec![Op::BuildB]]);
+        bodies.push(vec![vec![a, a], vec![Op::BuildAPrime, Op::BuildB]]);
+    }
     if let Ok(f) = std::env::var("VERIF_C14_BODY") {
         // debugging aid: only the bodies whose Debug text contains the given string
         bodies.retain(|b| format!("{b:?}").contains(&f));
@@ -375,7 +399,7 @@ fn main() {
             viol.add("", || Violation { key: String::new(), summary: format!("threads {body:?}: {v}"), replay: json!({"threads": format!("{body:?}"), "shared_scanner": "built through the cache before the threads start", "inputs": [INPUT, INPUT2], "problem": v, "how": "loom::model over scnr built with feature verif_loom; every thread runs its ops in order"}) });
         }
         if samples.items.len() < 6 && r.executions > 50 {
-            samples.push(|| json!({"threads": format!("{body:?}"), "executions": r.executions, "distinct_key_count_observations": r.outcomes}));
+            samples.push(|| json!({"threads": format!("{body:?}"), "executions": r.executions, "distinct_completion_orders": r.outcomes}));
         }
         if run.elapsed() > if tier == Tier::Quick { 400.0 } else { 3000.0 } || viol.total() > 20 {
             break;
@@ -478,7 +502,7 @@ fn main() {
     cov.insert("samples".into(), json!(samples.items));
     cov.insert("evaluations".into(), json!(total_exec));
     cov.insert("distinct_nontrivial".into(), json!(total_outcomes));
-    cov.insert("rule".into(), json!("one evaluation = one complete schedule (loom execution) of a harness body running the real build()/find_iter/peek_n code; loom's DPOR enumerates all schedules of a body (preemption bound: none); distinct_nontrivial = number of distinct vectors of cache sizes observed by the threads right after their operations, summed over bodies (more than one per body means the threads really raced on the cache)"));
+    cov.insert("rule".into(), json!("one evaluation = one complete schedule (loom execution) of a harness body running the real build()/find_iter/peek_n code; loom's DPOR enumerates all schedules of a body (preemption bound: none); distinct_nontrivial = number of distinct completion orders of the threads' operations observed, summed over bodies (more than one per body means the threads really interleaved)"));
     cov.insert("exhaustive".into(), json!(capped == 0 && unexplored == 0 && bounded == 0));
     cov.insert("bodies_explored_under_preemption_bound_2_because_unbounded_did_not_close".into(), json!(bounded));
     cov.insert("bodies_not_explored_because_of_the_wall_clock_cap".into(), json!(unexplored));
